@@ -400,6 +400,8 @@ def run_check(spec):
         red.append({"what": "check-internal-error", "detail": traceback.format_exc()[-3000:]})
 
     # 5 verdict
+    if os.environ.get("VERIF_DUMP_FAILURES"):
+        json.dump(failures, open(os.path.join(workdir, "all_failures.json"), "w"))
     known_hits = {}
     new_fail = []
     for rec in failures:
